@@ -1,1 +1,9 @@
-// Verification accessors for src/au.rs (child module of it; included under cfg(rustradio_verif)).
+// Verification accessors for src/au.rs (child module; cfg(rustradio_verif)).
+use super::*;
+
+/// An AuDecode that has already accepted its header (state = Data).
+pub fn decoder_in_data_state(src: ReadStream<u8>, bitrate: u32) -> (AuDecode, ReadStream<Float>) {
+    let (mut d, r) = AuDecode::new(src, bitrate);
+    d.state = DecodeState::Data;
+    (d, r)
+}
